@@ -764,6 +764,10 @@ class Cache(object):
                              spending_txid=None if not n.ref_txid else n.ref_txid.hex(),
                              spending_index_n=n.ref_index_n, strict=False)
 
+        if db_tx.version is not None:
+            # add_input() raises the version to 2 for relative-locktime sequences, keep the stored version
+            t.version_int = db_tx.version
+            t.version = db_tx.version.to_bytes(4, 'big')
         t.update_totals()
         t.size = len(t.raw())
         t.calc_weight_units()
